@@ -492,11 +492,24 @@ impl datagram_pipe::Sink for DatagramSink {
             .map(|x| x.socket.clone())
             .ok_or_else(|| io::Error::from(ErrorKind::NotFound))?;
 
-        socket
+        match socket
             .send_to(datagram.payload.as_ref(), meta.destination)
             .await
-            .map(|_| datagram_pipe::SendStatus::Sent)
-            .map_err(socks_to_io_error)
+        {
+            Ok(_) => Ok(datagram_pipe::SendStatus::Sent),
+            Err(e) => {
+                // An error on the socket of one association (e.g. its relay has become
+                // unreachable) must not take the whole multiplexer down
+                log_id!(
+                    debug,
+                    self.shared.id,
+                    "Failed to send UDP datagram: meta={:?} error={}",
+                    meta,
+                    socks_to_io_error(e)
+                );
+                Ok(datagram_pipe::SendStatus::Dropped)
+            }
+        }
     }
 }
 
